@@ -81,6 +81,18 @@ def hir_classes(h, acc):
     return acc
 
 
+def g_classes(h):
+    """Gallina list of (class definition, member bytes) for every distinct class of a JSON HIR"""
+    seen, out = set(), []
+    for c, members in hir_classes(h, []):
+        key = json.dumps(c) + members
+        if key in seen:
+            continue
+        seen.add(key)
+        out.append("(%s, %s)" % (g_cls(c), gbytes(bytes.fromhex(members))))
+    return glist(out)
+
+
 def kind_of(kind_text):
     if kind_text == "Literals":
         return "KLiterals"
